@@ -228,4 +228,8 @@ def run(ctx):
     for a, bi, t, c in aead_sites(facts, 'decrypt_in_place_detached'):
         rep.check(a.body.sig['inputs'][1] == '&mut [u8]' and a.body.sig['inputs'][3].startswith('&aead::AeadTag<A>'), 'R01.4', a.body.key, 'in-place-types',
                   '%s' % a.body.sig['inputs'], 'buffer of unchanged length (&mut [u8]) plus a separate AeadTag', where(a))
+    # R01.6: both sides run the suite the caller named: setup, context and single-shot bodies are parametric in A/Kdf/Kem
+    from .common import check_suite_parametric
+    check_suite_parametric(rep, facts, 'R01.6', scope=lambda b: b.key.startswith(('single_shot::', 'setup::', 'aead::')),
+                           floor=8, what='setup / context / single-shot bodies generic over the suite')
     rep.bodies_analysed = len(facts.body_list)
